@@ -27,7 +27,7 @@ theorem emitMove_ok (p : Params) (hy : Hyp p) (e : Emit) (M : State) (hw : WF p 
         groupOf rs = groupOf v.out.regType ∧ (ins.name == Mn.xchg) = false ∧
         effect ins.name rd (regBytes rs) = some (k, c, w) ∧ (moveTok p.vis tok k c w).dv = true := by
       rcases hform with ⟨ht, hrt, hsv, hdv0⟩ | ⟨ht, hrt, hdv⟩
-      · have h0 := hy.first i outId v.cur.regId hi ho hv.curLt
+      · have h0 := hy.first i outId v.cur.regId hi ho hv.curLt (hv.srcReg hnd)
         rw [← hv.out, ← ht, ← hrt] at h0
         have htok := moveOkAt_of_form tok h0 htv hsv hdv0
         obtain ⟨rd, rs, k, c, w, h1, h2, h3, h4, h5, h6⟩ := moveOkAt_elim htok hmv
@@ -119,7 +119,7 @@ theorem emitMove_ok (p : Params) (hy : Hyp p) (e : Emit) (M : State) (hw : WF p 
       by_cases hji : j = i
       · subst hji
         rw [hvar'i, ← hvar'def]
-        refine ⟨hv.out, rfl, rfl, hv.outReg, hv.outInit, rfl, hv.grpLt, ho, hv.outLt, ?_, ?_⟩
+        refine ⟨hv.out, rfl, rfl, hv.outReg, hv.outInit, rfl, hv.grpLt, ho, hv.outLt, ?_, ?_, fun _ => hv.srcReg hnd⟩
         · show physAt _ (groupOf v.out.regType) outId = some j
           rw [hphys']
           by_cases hc : v.cur.regId = outId
@@ -135,7 +135,7 @@ theorem emitMove_ok (p : Params) (hy : Hyp p) (e : Emit) (M : State) (hw : WF p 
       · rw [hvar'j j hji] at hrj'
         have hvj := hw.var j hj hrj'
         rw [hvar'j j hji]
-        refine ⟨hvj.out, hvj.curReg, hvj.notStk, hvj.outReg, hvj.outInit, hvj.grp, hvj.grpLt, hvj.curLt, hvj.outLt, ?_, ?_⟩
+        refine ⟨hvj.out, hvj.curReg, hvj.notStk, hvj.outReg, hvj.outInit, hvj.grp, hvj.grpLt, hvj.curLt, hvj.outLt, ?_, ?_, hvj.srcReg⟩
         · rw [hphys']
           by_cases hgj : groupOf (e.ctx.var j).cur.regType = g
           · obtain ⟨h1, h2⟩ := hother j hj hji hrj' hgj
